@@ -191,9 +191,32 @@ pub fn run(tier: &str, seed: u64, replay: Option<String>) -> i32 {
                         *to = (*rng.pick(&cand)).clone();
                     }
                 }
-                steps.push(json!({"base": b, "edits": edits, "what": "multi"}));
+                let st = json!({"base": b, "edits": edits, "what": "multi"});
+                if small {
+                    ind_steps.push(st.clone());
+                }
+                steps.push(st);
                 n_multi += 1;
             }
+        }
+        // every link of one element broken at once (several warnings carry the same id)
+        let mut by_elem: BTreeMap<String, Vec<String>> = BTreeMap::new();
+        for p in &links {
+            let elem = p.rsplitn(2, '/').last().unwrap_or("").to_string();
+            by_elem.entry(elem).or_default().push(p.clone());
+        }
+        for (k, (_, ptrs)) in by_elem.iter().enumerate() {
+            if ptrs.len() < 2 {
+                continue;
+            }
+            let to = ["fresh", "nil"][k % 2];
+            let edits: Vec<MEdit> = ptrs.iter().map(|p| MEdit::IdRedirected { ptr: p.clone(), to: to.into() }).collect();
+            let st = json!({"base": b, "edits": edits, "what": "multi"});
+            if small || k % 7 == 0 {
+                ind_steps.push(st.clone());
+            }
+            steps.push(st);
+            n_multi += 1;
         }
         // edit histories: deleting a space / construction / wall breaks several links at once;
         // duplicating the walls doubles every broken link
@@ -201,7 +224,11 @@ pub fn run(tier: &str, seed: u64, replay: Option<String>) -> i32 {
             let n = closure::ids_of(&v, coll).len();
             let lim = if thorough { n } else { n.min(3) };
             for i in 0..lim {
-                steps.push(json!({"base": b, "edits": [MEdit::ItemDeleted{ptr: format!("{}/{}", ptr, i)}], "what": "history"}));
+                let st = json!({"base": b, "edits": [MEdit::ItemDeleted{ptr: format!("{}/{}", ptr, i)}], "what": "history"});
+                if small {
+                    ind_steps.push(st.clone());
+                }
+                steps.push(st);
                 n_hist += 1;
             }
             if n > 0 {
@@ -210,8 +237,12 @@ pub fn run(tier: &str, seed: u64, replay: Option<String>) -> i32 {
             }
         }
         if !links.is_empty() {
-            steps.push(json!({"base": b, "edits": [MEdit::IdRedirected{ptr: links[0].clone(), to: "fresh".into()}, MEdit::ArrayDuplicated{ptr: "/walls".into()}], "what": "history"}));
-            steps.push(json!({"base": b, "edits": [MEdit::IdRedirected{ptr: links[links.len()-1].clone(), to: "nil".into()}, MEdit::ArrayDuplicated{ptr: "/windows".into()}], "what": "history"}));
+            let h1 = json!({"base": b, "edits": [MEdit::IdRedirected{ptr: links[0].clone(), to: "fresh".into()}, MEdit::ArrayDuplicated{ptr: "/walls".into()}], "what": "history"});
+            let h2 = json!({"base": b, "edits": [MEdit::IdRedirected{ptr: links[links.len()-1].clone(), to: "nil".into()}, MEdit::ArrayDuplicated{ptr: "/windows".into()}], "what": "history"});
+            ind_steps.push(h1.clone());
+            ind_steps.push(h2.clone());
+            steps.push(h1);
+            steps.push(h2);
             n_hist += 2;
         }
     }
